@@ -188,6 +188,11 @@ pub fn scenario(seed: u64, pool: &RecordPool, rep: &mut Report) {
 
 pub fn run(p: &Params) -> Report {
     let mut rep = Report::new("C16");
+    if let Some(r) = &p.replay {
+        if super::sys::replay(r, &mut rep) {
+            return rep;
+        }
+    }
     let mut prng = Rng::new(p.shard_seed(16));
     let pool = RecordPool::new(&mut prng, 210);
     if let Some(r) = &p.replay {
@@ -210,6 +215,9 @@ pub fn run(p: &Params) -> Report {
         let seed = p.shard_seed(0x16_000 + i);
         crate::util::guarded(&mut rep, seed, |rep| scenario(seed, &pool, rep));
     }
+    // real concurrency: the live table of an unmodified Discv5 walked under its lock while user
+    // threads call the public API and the node talks to a simulated network (real time)
+    super::sys::run_concurrent(p, super::sys::Focus::C16, 0x5C16_0000, 64, 3_200, &mut rep);
     rep
 }
 
